@@ -140,7 +140,7 @@ def c03(ctx):
                                                3 if q else 4, True))], times_only=True)
     # terminal and device level: state averaging, command selection, device updates (timestamps only)
     jobs = [("dev_single", p_devices.dev_cfg("single", ["invert", "gear", "axle", "diff"], 3, rich=False), 4, None),
-            ("dev_data2", p_devices.dev_cfg("matchdata", [], 2, nt=2), 2, None),
+            ("dev_data2", p_devices.dev_cfg("matchdata", [], 1, nt=2), 2, None),        # one connect on fresh terminals: re-linking is C09's business
             ("dev_data3", p_devices.dev_cfg("matchdata", [], 1, nt=3), 2, None)]
     if not q:
         jobs.append(("dev_sim", p_devices.dev_cfg("single", ["invert", "gear", "axle", "diff"], 12, rich=True), 2, (800, 14)))
